@@ -20,7 +20,8 @@ class WorldC10(World):
               'two-targets-share-references', 'target-with-absent-descriptor', 'different-T_ref', 'given-offset',
               'custom-descriptor', 'reload-target', 'refit-after-append', 'refit-after-pop', 'setitem-then-fit',
               'use_references-off', 'extend-with-one-shot-iterable', 'references-cloned', 'offsets-cleared',
-              'in-memory-dict-copy-edited', 'rejected-call-then-valid-calls')
+              'in-memory-dict-copy-edited', 'rejected-call-then-valid-calls', 'evaluated-next-to-T_ref',
+              'temperature-in-the-species-block')
     REAL = ('pmutt.empirical.references.Reference / References (all list methods, fit_HoRT_offset, getters)',
             'pmutt.statmech.StatMech.get_quantity references branch', 'pmutt.io.json')
     SIMULATED = ('1-3 clients editing shared References objects and evaluating targets that share them',)
@@ -136,8 +137,12 @@ class WorldC10(World):
         tid = rng.choice(sorted(self.tg))
         if kind == 'reload':
             return {'c': c, 'op': 'reload', 'args': {'tg': tid}}
-        return {'c': c, 'op': 'eval', 'args': {'tg': tid, 'T': round(rng.uniform(50, 3000), 2),
-                                               'T2': round(rng.uniform(50, 3000), 2)}}
+        T = round(rng.uniform(50, 3000), 2)
+        near = None
+        if rng.random() < 0.3:
+            near = rng.choice([0.0, 1e-3, -1e-3, 2e-3, -2.5e-3, 0.01, -0.05])      # K from the reference temperature
+        return {'c': c, 'op': 'eval', 'args': {'tg': tid, 'T': T, 'T2': round(rng.uniform(50, 3000), 2), 'near_T_ref': near,
+                                               'T_via_block': rng.random() < 0.25}}
 
     # ------------------------------------------------------------------ helpers
     def _modes(self, a, with_trans=False):
@@ -202,13 +207,19 @@ class WorldC10(World):
             ctx.probe('fit-overdetermined' if rank == len(keys) else 'fit-rank-deficient')
         self.fitted[rid] = tuple(mem)
 
-    def _check_target(self, tid, T, T2=None):
+    def _check_target(self, tid, T, T2=None, via_block=False):
         np, ctx = self.np, self.ctx
         t, m = self.tg[tid], self.tgm[tid]
         rs = t.references
         if rs is None:
             raise Violation('references-kept', 'target %d was built with a References object; it now carries none' % tid)
         off = rs.offset if isinstance(rs.offset, dict) else {}
+        if m['rs'] is not None and m['rs'] in self.rs:
+            # the species was handed THAT References object: what is fitted there is what the species applies
+            owner = self.rs[m['rs']]
+            off = owner.offset if isinstance(owner.offset, dict) else {}
+            if rs is not owner:
+                ctx.probe('species-holds-another-references-object')
         desc = m['desc']
         if any(k not in off for k in desc):
             ctx.probe('target-with-absent-descriptor')
@@ -225,7 +236,13 @@ class WorldC10(World):
         with warnings.catch_warnings():
             warnings.simplefilter('ignore')
             for q in ('HoRT', 'GoRT', 'SoR', 'CpoR', 'CvoR'):
-                on = float(self.real(getattr(t, 'get_' + q), T=T, _what='get_%s' % q))
+                if via_block:
+                    # the temperature arrives in the species' own keyword block (overriding a general one)
+                    ctx.probe('temperature-in-the-species-block')
+                    on = float(self.real(getattr(t, 'get_' + q), _what='get_%s(T in the species block)' % q,
+                                         **{'T': 123.0, t.name + '_kwargs': {'T': T}}))
+                else:
+                    on = float(self.real(getattr(t, 'get_' + q), T=T, _what='get_%s' % q))
                 offv = float(self.real(getattr(t, 'get_' + q), T=T, use_references=False, _what='get_%s(use_references=False)' % q))
                 b = float(getattr(bare, 'get_' + q)(T=T))
                 ctx.probe('use_references-off')
@@ -388,7 +405,11 @@ class WorldC10(World):
         elif name == 'eval':
             if a['tg'] not in self.tg:
                 raise Skip()
-            out = self._check_target(a['tg'], a['T'], a.get('T2'))
+            T_ = a['T']
+            if a.get('near_T_ref') is not None and self.tg[a['tg']].references is not None:
+                T_ = float(self.tg[a['tg']].references.T_ref) + a['near_T_ref']
+                ctx.probe('evaluated-next-to-T_ref')
+            out = self._check_target(a['tg'], T_, a.get('T2'), via_block=bool(a.get('T_via_block')))
         elif name == 'clone':
             if a['rs'] not in self.rs or a['id'] in self.rs:
                 raise Skip()
